@@ -297,7 +297,10 @@ def bilin_inv(
 
         H = (Fs - f) ** 2 + (Gs - g) ** 2
         # print t, H
-        if np.all(H < tol):
+        # A target that has converged is left alone,
+        # so that its solution does not depend on the other targets
+        todo = H >= tol
+        if not np.any(todo):
             break
 
         # Estimate Jacobi matrix
@@ -311,8 +314,8 @@ def bilin_inv(
         # incr = - np.dot(Jinv, [Fs-f, Gs-g])
         # x = x + incr[0], y = y + incr[1]
         det = Fx * Gy - Fy * Gx
-        x -= (Gy * (Fs - f) - Fy * (Gs - g)) / det
-        y -= (-Gx * (Fs - f) + Fx * (Gs - g)) / det
+        x = np.where(todo, x - (Gy * (Fs - f) - Fy * (Gs - g)) / det, x)
+        y = np.where(todo, y - (-Gx * (Fs - f) + Fx * (Gs - g)) / det, y)
 
         # Keep the iterates inside the arrays
         x = np.clip(x, 0.0, np.nextafter(imax - 1.0, 0.0))
